@@ -208,8 +208,11 @@ def run(chk):
     if not ok:
         broken.append("hook-build-failed: " + blog[-600:])
     else:
+        cfails, stale = corpus_first(chk, binp)
+        fails += cfails
         nfonts = 600 if thorough else 120
         dis, geos, stats, anomalies = correspondence(chk, binp, nfonts)
+        dis += stale
         chk.note("generator_stats", stats)
         chk.note("lookup_kinds_fired", {k[6:]: v for k, v in stats.items() if k.startswith("fired.")})
         chk.note("geometric_predicate", {k[4:]: v for k, v in stats.items() if k.startswith("geo.")})
@@ -302,6 +305,61 @@ def run(chk):
         "harness/src/c07.rs geo: spec-level reading of lookup flags / anchors used by the implementation-level predicate"]
 
 
+def stored_check(chk, binp, body):
+    """Re-run a replay body on its stored data only. Returns (still_failing, printed lines)."""
+    lines = []
+    if body.get("kind") == "attachment-chain-aborts":
+        dc = deep_chain(chk, binp, int(body.get("glyphs", 200000)))
+        lines.append("deep-chain: %s" % dc)
+        return any(rc != 0 for rc, _ in dc.values()), lines
+    if body.get("kind") == "kern-off-changes-glyph-order":
+        rc, out, err = C.run_rbv(binp, ["c07", "kernoff-corpus"], timeout=600)
+        bad = [l for l in out.splitlines() if l.startswith("kernoff-order-differs")]
+        lines += ["STILL FAILING: " + l[:600] for l in bad[:5]]
+        return bool(bad), lines
+    if not body.get("font_base64"):
+        return False, ["no stored font"]
+    os.makedirs(os.path.join(C.BUILD, "scratch"), exist_ok=True)
+    fp = os.path.join(C.BUILD, "scratch", "c07-replay-%d.ttf" % os.getpid())
+    open(fp, "wb").write(base64.b64decode(body["font_base64"]))
+    rc, out, err = C.run_rbv(binp, ["shape", "--font", fp, "--req", body["request"]])
+    lines.append("from stored bytes: " + out.strip()[:1500])
+    bad = out.startswith("panic")
+    if body.get("anchor_check"):
+        rc, out, err = C.run_rbv(binp, ["c07", "anchors", "--font", fp, "--req", body["request"], "--check", body["anchor_check"]])
+        lines.append(out.strip()[:1500])
+        bad = bad or " FAIL " in out or "panic" in out
+    if "kern-off" in body.get("kind", ""):
+        rc, out, err = C.run_rbv(binp, ["c07", "kernoff-bytes", "--font", fp, "--req", body["request"]])
+        lines.append(out.strip()[:1500])
+        bad = bad or " FAIL " in out or "panic" in out
+    return bad, lines
+
+
+def corpus_first(chk, binp):
+    """corpus/C07-*.json: fixed defects must stay fixed, listed known findings must still reproduce."""
+    fails, stale = [], []
+    n = 0
+    for fn in sorted(os.listdir(C.CORPUS)):
+        if not (fn.startswith("C07-") and fn.endswith(".json")):
+            continue
+        body = json.load(open(os.path.join(C.CORPUS, fn)))
+        bad, lines = stored_check(chk, binp, body)
+        n += 1
+        if body.get("class"):
+            if bad and chk.is_known(body["class"]):
+                chk.known_finding(body["class"], "corpus/%s still reproduces" % fn)
+            elif bad:
+                fails.append(dict(body, what="corpus-" + body["kind"], corpus_file=fn))
+            else:
+                stale.append({"what": "stale-known-finding", "corpus_file": fn})
+        elif bad:
+            fails.append(dict(body, what="regression-" + body["kind"], corpus_file=fn, output=lines))
+    chk.add_eval(n, n)
+    chk.note("corpus_replays", n)
+    return fails, stale
+
+
 def replay(chk, path):
     body = json.load(open(path))
     print(json.dumps({k: v for k, v in body.items() if k not in ("font_base64", "font_coq", "font_spec_debug")}, indent=1))
@@ -309,63 +367,38 @@ def replay(chk, path):
     if not ok:
         print("harness does not build")
         return 1
-    if body.get("kind") == "attachment-chain-aborts":
-        dc = deep_chain(chk, binp, int(body.get("glyphs", 200000)))
-        bad = [k for k, (rc, out) in dc.items() if rc != 0]
-        print("deep-chain:", dc)
-        return 1 if bad else 0
-    if body.get("kind") == "kern-off-changes-glyph-order":
-        rc, out, err = C.run_rbv(binp, ["c07", "kernoff-corpus"], timeout=600)
-        bad = [l for l in out.splitlines() if l.startswith("kernoff-order-differs")]
-        for l in bad[:5]:
-            print("STILL FAILING:", l)
-        return 1 if bad else 0
-    if "font_index" in body:
-        seed = body.get("font_seed", body.get("seed", 1))
-        # shape from the stored bytes (self-contained) and re-evaluate through the generator
-        os.makedirs(os.path.join(C.BUILD, "scratch"), exist_ok=True)
-        fp = os.path.join(C.BUILD, "scratch", "c07-replay-%d.ttf" % os.getpid())
-        open(fp, "wb").write(base64.b64decode(body.get("font_base64", "")))
-        rc, out, err = C.run_rbv(binp, ["shape", "--font", fp, "--req", body["request"]])
-        print("from stored bytes:", out.strip())
-        stored_fail = False
-        if body.get("anchor_check"):
-            rc, out, err = C.run_rbv(binp, ["c07", "anchors", "--font", fp, "--req", body["request"], "--check", body["anchor_check"]])
-            print(out.strip()[:1500])
-            stored_fail = stored_fail or " FAIL " in out or "panic" in out
-        if "kern-off" in body.get("kind", ""):
-            rc, out, err = C.run_rbv(binp, ["c07", "kernoff-bytes", "--font", fp, "--req", body["request"]])
-            print(out.strip()[:1500])
-            stored_fail = stored_fail or " FAIL " in out or "panic" in out
-        if stored_fail:
-            print("STILL FAILING on the stored font bytes")
-            return 1
-        if body.get("stored_bytes_only"):
-            return 0
-        rc, out, err = C.run_rbv(binp, ["c07", "one", "--seed", seed, "--index", body["font_index"], "--req", body["request"]])
-        still = False
-        for line in out.splitlines():
-            if line.startswith("case "):
-                print(line[:1500])
-                impl = line.split(" -> ", 1)[1]
-                p = font_payload(binp, seed, body["font_index"])
-                if p["font_base64"] != body.get("font_base64"):
-                    print("note: regenerated font bytes differ from the stored ones")
-                ans = model_answer(p, body["request"], impl)
-                print("model:", ans)
-                jobs = HDR + "Definition f : font := %s.\nEval vm_compute in (failing check_case [(f, %s, %s)]).\n" % (
-                    p["font_coq"], req_coq(body["request"]), glyphs_coq(impl))
-                try:
-                    l = C.parse_eval_lists(C.coq_eval("c07_replay_%d" % os.getpid(), jobs, timeout=120))
-                    if l and l[0]:
-                        still = True
-                        print("STILL FAILING: model and implementation disagree")
-                except Exception as ex:  # noqa
-                    print("model evaluation failed:", str(ex)[-300:])
+    bad, lines = stored_check(chk, binp, body)
+    for l in lines:
+        print(l)
+    if bad:
+        print("STILL FAILING on the stored data")
+        return 1
+    if body.get("stored_bytes_only") or "font_index" not in body:
+        return 0
+    # regenerate the font from (seed, index) and compare with the model / re-evaluate the predicate
+    seed = body.get("font_seed", body.get("seed", 1))
+    p = font_payload(binp, seed, body["font_index"])
+    if p["font_base64"] != body.get("font_base64"):
+        print("note: the generator no longer produces the stored font; model comparison skipped")
+        return 0
+    rc, out, err = C.run_rbv(binp, ["c07", "one", "--seed", seed, "--index", body["font_index"], "--req", body["request"]])
+    still = False
+    for line in out.splitlines():
+        if line.startswith("case "):
+            print(line[:1500])
+            impl = line.split(" -> ", 1)[1]
+            print("model:", model_answer(p, body["request"], impl))
+            jobs = HDR + "Definition f : font := %s.\nEval vm_compute in (failing check_case [(f, %s, %s)]).\n" % (
+                p["font_coq"], req_coq(body["request"]), glyphs_coq(impl))
+            try:
+                l = C.parse_eval_lists(C.coq_eval("c07_replay_%d" % os.getpid(), jobs, timeout=120))
+                if l and l[0]:
                     still = True
-            if line.startswith("geo ") and " FAIL " in line:
+                    print("STILL FAILING: model and implementation disagree")
+            except Exception as ex:  # noqa
+                print("model evaluation failed:", str(ex)[-300:])
                 still = True
-                print("STILL FAILING:", line[:800])
-        return 1 if still else 0
-    print("nothing to re-run for this replay kind")
-    return 1
+        if line.startswith("geo ") and " FAIL " in line:
+            still = True
+            print("STILL FAILING:", line[:800])
+    return 1 if still else 0
